@@ -571,11 +571,13 @@ class RealHeap:
         except AttributeError as e:
             if "_orb_frame" in str(e):
                 return "attribute"
-            return "raised:AttributeError:" + str(e)[:60]
+            return "raised:AttributeError:" + str(e)[:60].replace(" ", "_")
         except ValueError as e:
             if "Non-symmetric" in str(e):
                 return "asymmetric"
-            return "raised:ValueError:" + str(e)[:60]
+            return "raised:ValueError:" + str(e)[:60].replace(" ", "_")
+        except Exception as e:  # noqa: BLE001 - reported as a disagreement (the model never predicts it)
+            return "raised:" + type(e).__name__ + ":" + str(e)[:60].replace(" ", "_")
         return "ok"
 
     def observe(self):
